@@ -146,8 +146,21 @@ struct Checker {
                                      f.name, f.lo, f.lo + f.width - 1, got, want, ctx.c_str()),
                                  replay);
         }
+        // the counter mirror follows a restart / event write only while the MU bit of the timer's configuration is set (timer.md)
+        auto coupled = [&](u16 b) {
+            if (!spec::Coupled(a, b))
+                return false;
+            for (u16 t = 0; t < 2; ++t) {
+                u16 base = (u16)(0x20 + t * 0x10);
+                if ((a == base || a == base + 2) && (b == base + 8 || b == base + 10)) {
+                    u16 cfg = a == base ? v : r0[base / 2];
+                    return (cfg >> 9 & 1) != 0;
+                }
+            }
+            return true;
+        };
         for (u16 b = 0; b < 0x800; b += 2)
-            if (b != a && r1[b / 2] != r0[b / 2] && !spec::Coupled(a, b))
+            if (b != a && r1[b / 2] != r0[b / 2] && !coupled(b))
                 res.AddViolation(Fmt("c12:alias:%03X->%03X:%s", a, b, pn),
                                  Fmt("%s write %04X to +0x%03X changed +0x%03X from %04X to %04X (no documented coupling); %s", pn, v,
                                      a, b, r0[b / 2], r1[b / 2], ctx.c_str()),
